@@ -235,7 +235,7 @@ def gen_scenario(seed, family=None):
     family = family or rnd.choice(FAMILIES)
     doc, meta = gen_instance(rnd, family)
     cfg = gen_cfg(rnd, meta)
-    return {
+    sc = {
         "id": f"{family}-{seed}",
         "family": family,
         "seed": rnd.randrange(1000),
@@ -246,8 +246,14 @@ def gen_scenario(seed, family=None):
         "policy": gen_policy(rnd, family),
         "max_steps": 600 if family != "bigids" else 250,
         "probes": {"invalid": rnd.random() < 0.3, "c20": rnd.random() < 0.3, "reset": rnd.random() < 0.3,
-                   "envfail": rnd.random() < 0.2},
+                   "envfail": rnd.random() < 0.2,
+                   "shift": (rnd.choice([3, 11, 250, -4]) if (family == "shifted" or rnd.random() < 0.15) else 0)},
     }
+    if sc["probes"]["shift"]:
+        # the shifted twin replays only the agent's actions; probes that step the core API would
+        # consume samples of stochastic durations in this run but not in the twin
+        sc["probes"]["c20"] = False
+    return sc
 
 
 class Policy:
